@@ -314,21 +314,20 @@ namespace smt
         std::string s_expr = "^";
         for (auto it0 = ls.cbegin(); it0 != ls.cend(); ++it0)
             if (value(*it0) == True)
-            {
-                for (auto it1 = it0 + 1; it1 != ls.cend(); ++it1)
-                {
-                    if (value(*it1) == True || *it1 == !p)
-                        return FALSE_lit; // the exact-one cannot be satisfied..
-                    else if (value(*it1) != False && *it1 != p)
-                    { // we need to include this literal in the exact-one..
-                        p = *it1;
-                        s_expr += to_string(p);
-                        ls[j++] = p;
+            { // one of the literals is already true, hence the exact-one holds iff all the other literals are false..
+                std::vector<lit> others;
+                for (auto it1 = ls.cbegin(); it1 != ls.cend(); ++it1)
+                    if (it1 != it0)
+                    {
+                        if (value(*it1) == True)
+                            return FALSE_lit; // the exact-one cannot be satisfied..
+                        else if (value(*it1) == Undefined)
+                            others.push_back(!*it1);
                     }
-                }
-                break;
+                return new_conj(std::move(others));
             }
-            else if (value(*it0) != False && *it0 != p)
+        for (auto it0 = ls.cbegin(); it0 != ls.cend(); ++it0)
+            if (value(*it0) != False && *it0 != p)
             { // we need to include this literal in the exact-one..
                 p = *it0;
                 s_expr += to_string(p);
